@@ -6,8 +6,12 @@ From Coq Require Import NArith List Bool Arith.
 Import ListNotations.
 
 (** ** the XPath subset:  (.//)? step (/ step)* ( / @attr )?   joined by | *)
-Inductive ntest := NTName (n : N) | NTAny.
-Definition ntest_ok (t : ntest) (n : N) : bool := match t with NTName m => N.eqb m n | NTAny => true end.
+(** name tests: a qualified name, the wildcard [*], and the namespace wildcard [p:*].  Expanded names are numbers
+    coded as 1000 * namespace + local name (namespace 0 = no namespace), so that the namespace of a name is [n / 1000]. *)
+Inductive ntest := NTName (n : N) | NTAny | NTNs (ns : N).
+Definition ns_of (n : N) : N := N.div n 1000.
+Definition ntest_ok (t : ntest) (n : N) : bool :=
+  match t with NTName m => N.eqb m n | NTAny => true | NTNs u => N.eqb (ns_of n) u end.
 Record spath := mkSpath { sp_desc : bool; sp_steps : list ntest; sp_attr : option ntest }.
 Definition sxpath := list spath.
 
